@@ -132,6 +132,37 @@ func (P *Program) FindFunc(pkgPath, key string) *ssa.Function {
 	if f := sp.Func(key); f != nil {
 		return f
 	}
+	// anonymous function ("Wake$1"): search the functions and methods of the package
+	if strings.Contains(key, "$") {
+		var found *ssa.Function
+		var visit func(f *ssa.Function)
+		visit = func(f *ssa.Function) {
+			if f == nil || found != nil {
+				return
+			}
+			for _, a := range f.AnonFuncs {
+				if a.Name() == key {
+					found = a
+					return
+				}
+				visit(a)
+			}
+		}
+		for _, m := range sp.Members {
+			switch x := m.(type) {
+			case *ssa.Function:
+				visit(x)
+			case *ssa.Type:
+				for _, T := range []types.Type{x.Type(), types.NewPointer(x.Type())} {
+					ms := P.Prog.MethodSets.MethodSet(T)
+					for i := 0; i < ms.Len(); i++ {
+						visit(P.Prog.MethodValue(ms.At(i)))
+					}
+				}
+			}
+		}
+		return found
+	}
 	return nil
 }
 
